@@ -139,7 +139,9 @@ package ast
 // ---- linkedPairs: the member storage of object nodes (C14: Get finds the FIRST pair
 // with the key, whether or not the hash index has been built; C15).
 //@ pure func lpAt(lp *linkedPairs, i int) Pair = ite(i < 16, lp.head[i], (*lp.tail[i / 16 - 1])[i % 16])
-//@ pure func lpWF(lp *linkedPairs) bool = lp != nil && 0 <= lp.size && lp.size <= (len(lp.tail) + 1) * 16 && len(lp.tail) <= 8796093022208 && (forall a int :: (0 <= a && a < len(lp.tail) && (a + 1) * 16 < lp.size) ==> lp.tail[a] != nil)
+//@ pure func lpWF(lp *linkedPairs) bool = lp != nil && 0 <= lp.size && lp.size <= (len(lp.tail) + 1) * 16 && len(lp.tail) <= 8796093022208 && (forall a int :: (0 <= a && a < len(lp.tail) && (a + 1) * 16 < lp.size) ==> lp.tail[a] != nil) && lpDistinct(lp) && lpSpare(lp)
+//@ pure func lpDistinct(lp *linkedPairs) bool = forall a int, b int :: (0 <= a && a < b && b < len(lp.tail) && lp.tail[a] != nil) ==> lp.tail[a] != lp.tail[b]
+//@ pure func lpSpare(lp *linkedPairs) bool = forall a int :: (len(lp.tail) <= a && a < cap(lp.tail)) ==> lp.tail[a] == nil
 // every stored pair carries the hash of its key
 //@ pure func lpHashed(lp *linkedPairs) bool = forall j int :: (0 <= j && j < lp.size) ==> lpAt(lp, j).hash == caching.strHash(txt(lpAt(lp, j).Key))
 // the index, when present, maps the hash of every stored pair to the FIRST slot holding that hash
@@ -169,3 +171,35 @@ package ast
 //@   loop 0: invariant 0 <= i && i <= self.size
 //@   loop 0: invariant forall j int :: (0 <= j && j < i) ==> txt(lpAt(self, j).Key) != txt(key)
 //@   loop 0: decreases self.size - i
+
+// growTailLength / set: as for linkedNodes (chunked storage).
+//@ func (*linkedPairs).growTailLength props C15
+//@   requires self != nil && 0 <= l && l <= 8796093022208 && len(self.tail) <= 8796093022208 && lpSpare(self)
+//@   modifies self.tail
+//@   ensures len(self.tail) == ite(old(len(self.tail)) < l, l, old(len(self.tail)))
+//@   ensures forall a int :: (0 <= a && a < old(len(self.tail))) ==> self.tail[a] == old(self.tail[a])
+//@   ensures forall a int :: (old(len(self.tail)) <= a && a < cap(self.tail)) ==> self.tail[a] == nil
+//@   ensures base(self.tail) == old(base(self.tail)) || fresh(self.tail)
+//@   loop 0: invariant cap(self.tail) <= c && (c <= cap(self.tail) || c <= 2 * l + 2) && 0 <= c
+//@   loop 0: decreases l - c
+
+//@ func (*linkedPairs).set props C15
+//@   requires lpWF(self) && 0 <= i && i <= self.size && self.size <= 70368744177664
+//@   modifies self.head, self.tail, self.size, self.tail[_], *self.tail[i / 16 - 1]
+//@   ensures self.size == ite(old(self.size) <= i, i + 1, old(self.size))
+//@   ensures same(lpAt(self, i), v)
+//@   ensures forall j int :: (0 <= j && j < old(self.size) && j != i) ==> same(lpAt(self, j), old(lpAt(self, j)))
+//@   ensures lpWF(self) && self.index == old(self.index)
+
+// Pop: the last member is removed; every other member keeps its place and value, and
+// the hash index still maps every remaining hash to the first slot holding it - in
+// particular removing the later of two members with the same key must not hide the earlier.
+//@ func (*linkedPairs).Pop props C15,C14
+//@   requires self == nil || (lpWF(self) && self.size <= 70368744177664)
+//@   requires self == nil || lpHashed(self)
+//@   requires self == nil || lpIndexed(self)
+//@   modifies self.head, self.tail, self.size, self.tail[_], *self.tail[(self.size - 1) / 16 - 1], self.index[_]
+//@   ensures (self != nil && old(self.size) > 0) ==> self.size == old(self.size) - 1
+//@   ensures (self != nil && old(self.size) == 0) ==> self.size == 0
+//@   ensures self != nil ==> (forall j int :: (0 <= j && j < self.size) ==> same(lpAt(self, j), old(lpAt(self, j))))
+//@   ensures self != nil ==> (lpWF(self) && lpIndexed(self))
